@@ -32,6 +32,8 @@ type StormCfg struct {
 	Sessions int // how many session "slots" the clients hop among
 	Ops      int // requests per client
 	Mods     string
+	// Dial overrides how a client connects (real binary: token); nil = lab SUT
+	Dial func() (*scen.C, error)
 }
 
 // StormResult is what one storm observed.
@@ -74,7 +76,11 @@ func Storm(p *sut.Proc, cfg StormCfg) *StormResult {
 				res.Errors = append(res.Errors, fmt.Sprintf("client %d: ", ci)+fmt.Sprintf(format, a...))
 				mu.Unlock()
 			}
-			c, err := scen.Dial(p, cfg.Mods, "")
+			dial := cfg.Dial
+			if dial == nil {
+				dial = func() (*scen.C, error) { return scen.Dial(p, cfg.Mods, "") }
+			}
+			c, err := dial()
 			if err != nil {
 				fail("dial: %v", err)
 				return
@@ -161,7 +167,7 @@ func Storm(p *sut.Proc, cfg StormCfg) *StormResult {
 			for op := 0; op < cfg.Ops; op++ {
 				if c.IsClosed() {
 					atomic.AddInt64(&res.Reconnects, 1)
-					c2, err := scen.Dial(p, cfg.Mods, "")
+					c2, err := dial()
 					if err != nil {
 						fail("redial: %v", err)
 						return
@@ -248,6 +254,9 @@ type RaceReport struct {
 	Sample string
 }
 
+// DependencyRaces counts reports that lie entirely inside hagall-common's hdsclient.
+var DependencyRaces int
+
 var frameRe = regexp.MustCompile(`^\s+(\S+)\(`)
 
 // ParseRaces splits race-detector output into reports, keeps those with a
@@ -266,13 +275,22 @@ func ParseRaces(text string) (all int, hagall []RaceReport) {
 		}
 		// stacks are separated by blank lines; take the first hagall frame of each of the first two stacks
 		var firsts []string
+		accessFns := []string{}
 		for _, st := range strings.Split(b, "\n\n") {
 			if !(strings.Contains(st, "Write at") || strings.Contains(st, "Read at") || strings.Contains(st, "Previous write at") || strings.Contains(st, "Previous read at")) {
 				continue
 			}
 			fn := ""
+			takeNext := false
 			for _, l := range strings.Split(st, "\n") {
 				l = strings.TrimSpace(l)
+				if takeNext && l != "" {
+					accessFns = append(accessFns, l) // the function that performs the racing access
+					takeNext = false
+				}
+				if strings.HasPrefix(l, "Read at") || strings.HasPrefix(l, "Write at") || strings.HasPrefix(l, "Previous write at") || strings.HasPrefix(l, "Previous read at") {
+					takeNext = true
+				}
 				if strings.HasPrefix(l, "github.com/aukilabs/hagall/") {
 					fn = l
 					if i := strings.Index(fn, "("); i > 0 && !strings.HasPrefix(fn[i:], "(*") {
@@ -285,6 +303,14 @@ func ParseRaces(text string) (all int, hagall []RaceReport) {
 				fn = "(no hagall frame)"
 			}
 			firsts = append(firsts, fn)
+		}
+		// out of scope: a race between two accesses that both lie inside the
+		// discovery-service client of hagall-common (its own bookkeeping, e.g.
+		// lastHealthCheck read by Pair without the client's mutex): not state of
+		// aukilabs/hagall and not repairable there. Counted, not judged.
+		if len(accessFns) >= 2 && strings.HasPrefix(accessFns[0], "github.com/aukilabs/hagall-common/hdsclient.") && strings.HasPrefix(accessFns[1], "github.com/aukilabs/hagall-common/hdsclient.") {
+			DependencyRaces++
+			continue
 		}
 		sort.Strings(firsts)
 		key := strings.Join(firsts, " <-> ")
